@@ -198,10 +198,10 @@ def _r27_5(ctx, F):
     for st in an.at_term(c.bb):
       s0, e0 = st.val((rk[0], rk[1] + (('f', 0),))), st.val((rk[0], rk[1] + (('f', 1),)))
       msg = f'[{s0} .. {e0}]'
-      for lc in lens:
-        same = {o.name for o in origins(b, lc.args[0], named_terminal=True)} == {o.name for o in origins(b, c.args[0], named_terminal=True)}
-        if same and s0 == Aff.const(0) and e0 == Aff.sym(('call', lc.bb)) - Aff.const(1):
-          ok = True
+      src0 = c.args[0].get('c') or c.args[0].get('m')
+      tg = [tk for tk, m in st.ref.get(src0['l'], ())] if src0 and not src0.get('p') else []
+      if len(tg) == 1 and lens and s0 == Aff.const(0) and e0 == st.val((tg[0][0], tg[0][1] + ('#len',))) - Aff.const(1):
+        ok = True
     ctx.ob('R27.5', b.n, 're-slice is [0 .. len - 1] of the slice being shortened', ok, msg, where(b, c.line))
     gs = []
     for g in guards_of(b, c.bb):
